@@ -128,4 +128,54 @@ theorem bitcoin_version_ambiguity :
       a.version != b.version || (a.witnessType == b.witnessType && (a.multisig == b.multisig || a.witnessType == "legacy")))) = true := by
   decide +kernel
 
+/-! ## Import decision for extended keys (`xkeyImport`, run against `HDKey(...)` / `HDKey.from_wif` on strings with a right checksum and a
+wrong payload) -/
+
+/-- soundness: whatever is imported has a known version and a key field of the kind every table entry of that version announces -/
+theorem xkeyImport_sound (H : Bytes → Bytes) (s : List Char) (k : XKeyData) (h : xkeyImport H s = some k) :
+    xkeyDec H s = some k ∧ versionEntries k.version ≠ [] ∧
+    ∀ e ∈ versionEntries k.version, keyFieldOk e.2.isPrivate k.keyData = true := by
+  unfold xkeyImport at h
+  cases hd : xkeyDec H s with
+  | none => rw [hd] at h; cases h
+  | some k' =>
+    rw [hd] at h
+    simp only at h
+    by_cases he : (versionEntries k'.version).isEmpty = true
+    · rw [he] at h; simp at h
+    · have he' : (versionEntries k'.version).isEmpty = false := by simpa using he
+      rw [he'] at h
+      simp only [Bool.false_eq_true, if_false] at h
+      by_cases ha : (versionEntries k'.version).all (fun e => keyFieldOk e.2.isPrivate k'.keyData) = true
+      · rw [ha] at h
+        simp only [if_true] at h
+        cases h
+        refine ⟨rfl, ?_, ?_⟩
+        · intro hnil; rw [hnil] at he'; simp at he'
+        · intro e hemem; exact (List.all_eq_true.mp ha) e hemem
+      · have ha' : (versionEntries k'.version).all (fun e => keyFieldOk e.2.isPrivate k'.keyData) = false := by simpa using ha
+        rw [ha'] at h; simp at h
+
+/-- completeness: the export of a well-formed key whose version is in the table and whose key field is of the announced kind imports back
+to exactly that key (with `xkeyDec_xkeyEnc`) -/
+theorem xkeyImport_xkeyEnc (H : Bytes → Bytes) (hH : ∀ x, 4 ≤ (H x).length) (k : XKeyData) (hk : k.WF)
+    (hv : versionEntries k.version ≠ []) (hf : ∀ e ∈ versionEntries k.version, keyFieldOk e.2.isPrivate k.keyData = true) :
+    xkeyImport H (xkeyEnc H k) = some k := by
+  unfold xkeyImport
+  rw [xkeyDec_xkeyEnc H hH k hk]
+  simp only
+  have he : (versionEntries k.version).isEmpty = false := by
+    cases hl : versionEntries k.version with
+    | nil => exact absurd hl hv
+    | cons a l => rfl
+  rw [he]
+  simp only [Bool.false_eq_true, if_false]
+  have ha : (versionEntries k.version).all (fun e => keyFieldOk e.2.isPrivate k.keyData) = true :=
+    List.all_eq_true.mpr hf
+  rw [ha]; simp
+
+/-- a private version with a public key in the key field (finding F70) is refused -/
+example : keyFieldOk true (0x02 :: List.replicate 32 0x11) = false ∧ keyFieldOk false (0x00 :: List.replicate 32 0x11) = false ∧
+    keyFieldOk true (0x00 :: List.replicate 32 0x11) = true ∧ keyFieldOk false (0x03 :: List.replicate 32 0x11) = true := by decide
+
 end Btc.C12
